@@ -153,7 +153,10 @@ def run(prog, rep, tier='quick'):
                         L = Aff.sym('L')
                         ok = True
                         why = []
-                        if not isinstance(res, Num) or res.org is None or res.org == 'conflict' or res.org != L:
+                        if isinstance(res, Num) and res.org is None:
+                            rep.undecided('lags', g.qname, label, 'origin index of the returned correlation not derivable', gwhere)
+                            continue
+                        if not isinstance(res, Num) or res.org == 'conflict' or res.org != L:
                             ok = False
                             why.append('lag 0 of the returned correlation is at index %s, not maxlags (numerator/divisor '
                                        'misaligned or window not centred)' % (getattr(res, 'org', None),))
